@@ -209,8 +209,9 @@ def step (s : St) (l : Label) : Step St :=
         match s.last with
         | none => enter s Limits.eventNone 0 0
         | some .yield =>
+          -- the waitable set is created lazily: without one there cannot be an event, poll again
           match s.set with
-          | none => .panic "block_on: waitable_set.as_ref().unwrap() on None (Yield)" []
+          | none => enter s Limits.eventNone 0 0
           | some x => (Step.emit [.setPoll x e w c]).bind fun _ => enter s e w c
         | some (.wait _) =>
           match s.set with
@@ -248,7 +249,9 @@ def step (s : St) (l : Label) : Step St :=
         .ok { s with wk := k, members := match left with | some r => (s.members.filter (· != r)) | none => s.members,
                      pc := .setPolling } []
     | .dropCancelWake =>
-      (cancelRead s.wk ans).bind fun (k, left) =>
+      -- `Drop for TaskState`: first the sleep state is set to WOKEN (no later wake may write to the wake-up
+      -- stream: the task is never polled again), then `cancel_inter_task_stream_read`
+      (cancelRead { s.wk with sleep := Limits.sleepStateWoken } ans).bind fun (k, left) =>
         .ok { s with wk := k, members := match left with | some r => (s.members.filter (· != r)) | none => s.members,
                      drops := s.drops + 1, pc := if s.tasksEmpty then .dropFields else .dropTasks } []
     | _ => .panic "model: cancelRead out of place" []
